@@ -110,6 +110,22 @@ func runC10(c *Ctx) bool {
 				doc = gen.Spell(f, sp)
 			}
 		}
+		if j%20 == 3 {
+			// a name that is not a path element (mkdir, verify and dry run reject it; the other
+			// operations do not care), half of the time on a CHILDLESS ROOT
+			depths, names := gen.Depths(f)
+			pos := r.Intn(len(names))
+			if j%40 == 3 {
+				f = append(f, &model.Node{Name: "lonely"})
+				depths, names = gen.Depths(f)
+				pos = len(names) - 1
+			}
+			names[pos] = []string{"a/b", "..", "x/../../y", "/abs"}[r.Intn(4)]
+			f = gen.FromDepths(depths, names)
+			doc = gen.Spell(f, gen.Canonical)
+			cs.Kind = "invalid-name"
+			cs.Tags = []string{"invalid-name"}
+		}
 		if j%40 == 13 {
 			// a line beyond the scanner's 64 KiB limit, as the first, a middle or the last line:
 			// the simple mode reports it, so the massive mode must
